@@ -17,6 +17,7 @@ import (
 	"github.com/refraction-networking/uquic/internal/protocol"
 	"github.com/refraction-networking/uquic/internal/qerr"
 	"github.com/refraction-networking/uquic/internal/utils"
+	"github.com/refraction-networking/uquic/internal/wire"
 )
 
 // VerifRunLoopSnap is the timer-relevant state of a connection at an observation point
@@ -310,3 +311,7 @@ func VerifTransportConns(t *Transport) []*Conn {
 
 // VerifRunLoopSnapshotNow is monotime.Now() as a raw integer.
 func VerifRunLoopSnapshotNow() int64 { return int64(monotime.Now()) }
+
+// VerifQueueHandshakeDone queues a HANDSHAKE_DONE frame for sending. Sent by a client it
+// is a protocol violation the server must answer with a fatal transport error.
+func VerifQueueHandshakeDone(c *Conn) { c.queueControlFrame(&wire.HandshakeDoneFrame{}) }
